@@ -229,7 +229,7 @@ var c14sAddrs = []string{"127.0.3.1:0", "127.0.3.2:0"}
 func genC14s(t *rapid.T) c14sScenario {
 	sc := c14sScenario{}
 	hostPool := []string{"aa.test", "bb.test", "cc.test"}
-	prefixPool := []string{"/a", "/a/b", "/b", "/api"}
+	prefixPool := []string{"/a", "/a/b", "/b", "/api", "/search?type=img", "/a%20b", "/q?"}
 	n := rapid.IntRange(1, 5).Draw(t, "nLocs")
 	for i := 0; i < n; i++ {
 		l := c14sLoc{Name: fmt.Sprintf("loc%d", i)}
@@ -262,7 +262,7 @@ func genC14s(t *rapid.T) c14sScenario {
 			Host string `json:"host"`
 			URI  string `json:"uri"`
 		}{rapid.IntRange(0, 1).Draw(t, "srv"), rapid.SampledFrom(append(hostPool, "other.test")).Draw(t, "reqHost"),
-			rapid.SampledFrom([]string{"/a/x", "/a/b/x", "/b", "/c", "/ab", "/api/v1?x=/a", "/x?next=/a/b", "/", "/a"}).Draw(t, "reqURI")})
+			rapid.SampledFrom([]string{"/a/x", "/a/b/x", "/b", "/c", "/ab", "/api/v1?x=/a", "/x?next=/a/b", "/", "/a", "/%61/x", "/%61pi/users", "/search?type=img&q=1", "/search?q=1&type=img", "/a%20b/c", "/a%2Fb/x", "/q?x=1", "/q"}).Draw(t, "reqURI")})
 	}
 	return sc
 }
